@@ -586,15 +586,35 @@ class C14(Check):
                   '(also from inside callbacks, with a buffered event, and for the client removed by the very onAccepted/onConnected that announces it; '
                   'Poll::set/remove prune); dispatched kinds are registered kinds (onRead, the send of a backlog, onWrite, accept, connect); a failed '
                   'read/write (a zero-length write with an empty backlog counts as failed, as in the code) is followed by onClosed before the next '
-                  'wait/dispatch; run() returns only after interrupt(), and once interrupted the next wait is the last. '
+                  'wait/dispatch; run() returns only after interrupt(), and once interrupted the next wait is the last; a pending interrupt makes run() return '
+                  'after the buffered events have been served; a ready registered socket that the (fair) epoll reports and no callback removes or suspends is '
+                  'dispatched within a bounded number of iterations; the timer and closing phases of an iteration terminate with explicit fuel bounds and run() '
+                  'is never cut off once the fuel is large enough (30 theorems, closed under the global context). '
                   'The model is tied to the code by running the extracted model and the real Server (ASan/UBSan build of the working tree, '
                   'kernel simulated by symbol interposition, private state of Server and Socket::Poll - pools, timer queue, closing set, selected events - '
                   'read for the state lines) on the same histories, line by line; the extracted monitors and an independent bounded-liveness oracle '
                   'judge the implementation\'s own log. Cross-thread interrupt(), host-name lookups and clear() run on the real kernel with real threads.')
-    level_note = ('partial: eventual dispatch (liveness) only up to the kernel - a reported registered socket enters the buffer; in every iteration the '
-                  'buffer only loses entries (order kept) and its head is served without asking the kernel (eventual_dispatch_partial_*); termination of '
-                  'the timer/closing phases (intervals > 0, finite scripts) is not proved, the model ends such runs as stuck; "interrupt makes run() '
-                  'return" is the safety half (next wait is the last). '
+    level_note = ('Round 4 closed the two liveness clauses inside the model, under hypotheses that are written out in the theorems: '
+                  '(a) termination of one iteration: timer phase with explicit fuel bound tlag+1 (timer_phase_terminates; measure = over the entries due at '
+                  'the sampled now: 1 + (now - due)/interval - a late timer fires once per missed interval, so the measure is not "number of due timers"), '
+                  'closing phase with explicit fuel bound cmeas+1 = |closing set| + write/read actions left in the callback scripts + 1 '
+                  '(closing_phase_terminates, no hypothesis); both bounds are attained in the Examples. Hypothesis Env: timer intervals > 0 and no callback '
+                  'sets the clock back; it holds in every state reached by operations that respect it (environment_hypothesis_reachable). Fuel is only a '
+                  'device: more fuel gives the same run (more_fuel_same_run), enough fuel exists for every state and finite epoll script '
+                  '(enough_fuel_exists, run_always_returns) - that whole-run bound is EXISTENTIAL, not explicit. '
+                  '(b) eventual_dispatch: FULL UNDER (i) the fairness of the simulated level-triggered epoll, an explicit hypothesis on the epoll script '
+                  '(the next epoll item reports the socket with bits that mean readiness for every interest containing its current one - once reported the '
+                  'socket stays buffered, so only that item is constrained), (ii) callback scripts that neither remove the socket nor suspend it '
+                  '(writes/reads/resumes on it are allowed, they only widen the interest) and a client that is not suspended: the log then continues with an '
+                  'event of its dispatch - or with the return of run() when an interrupt intervenes - within (events already buffered + 1 + length of the '
+                  'reported list) iterations; from an empty buffer 1 + length of the reported list (the +1 is a wake-up consumed without serving anything '
+                  'when the event-descriptor count is positive and no interrupt is pending). Whether the REAL kernel keeps (i) is not proved: it is the '
+                  'assumption; the harness simulates it. '
+                  '(c) interrupt liveness (interrupt_makes_run_return, interrupt_reaches_wait): with the interrupted flag set and the event-descriptor '
+                  'count positive at the head of an iteration, run() returns after at most |buffer|+1 iterations - buffered events are served before the loop '
+                  'looks at the event descriptor, so it is NOT always the current iteration; with an empty buffer it is (the log continues EvNow .. EvWait '
+                  'EvItem EvRunRet). The theorems are stated for runs that are not cut off by fuel (stuck = false) and, in the *_total forms, for every '
+                  'sufficiently large fuel under Env. '
                   'Validated by correspondence only: insertion order among EQUAL due times; the 64-event limit of epoll_wait is outside the model '
                   '(generators stay below it). Not modelled in Coq, exercised by the real-kernel rounds of the harness only (stream mt: a loop thread and '
                   'one or two interrupting threads on the real eventfd, stalls injected around the write to the event descriptor, getaddrinfo '
@@ -625,7 +645,8 @@ class C14(Check):
             'non-trivial = the implementation made >= 2 callbacks inside a run() (mt: >= 3 rounds completed); distinct = distinct op text')
     assumptions = ['level-triggered epoll: a ready registered descriptor and a readable event descriptor are reported by every epoll_wait (fairness of the simulated kernel)',
                    'at most 63 ready sockets per epoll_wait (the 64-entry event array is not modelled)',
-                   'timer intervals > 0 and finite callback scripts for termination of a loop iteration (not needed for the safety theorems)',
+                   'timer intervals > 0 and a clock that callbacks never set back (Env) for termination of the timer phase and of run() (proved under it; not needed for the safety theorems); callback scripts are finite by construction',
+                   'eventual dispatch: the next epoll item reports the socket as ready (explicit hypothesis `reports`), no callback removes or suspends it, a client is not suspended',
                    'the application does not touch an object after its remove() returned; identities of removed objects are never reused by the test (pool slots may be)',
                    'mt rounds: a run() that has not returned 3 s after interrupt() returned counts as hung (machine load can in principle produce a false alarm)']
 
